@@ -352,6 +352,23 @@ def rule_class_stubs_kept_apart(ctx: Ctx, repo: Repo) -> None:
     ctx.check(have == want, "R-C06.4", bm.fq,
               "the module stub carries exactly the generated TypedDict classes of its functions, field set by field set (same-named classes are not merged into a bigger one)",
               construct=f"classes {have}, expected {want}")
+    # ... and so does the TEXT: ModuleStub.render is interpreted and the rendered class definitions are read back
+    if ms is not None:
+        mr = repo.method(repo.cls("monkeytype.stubs", "ModuleStub"), "render")
+        ctx.functions.add(mr.fq)
+        text = RM.render(repo, ms, anno_text=lambda v: v.name.split(":", 1)[-1] if isinstance(v, S) else "object")
+        try:
+            tree = ast.parse(text)
+        except SyntaxError as e:
+            ctx.violate("R-C06.4", mr.fq, f"the rendered module stub does not parse: {e.msg}", "the rendered stub is not valid Python")
+            return
+        rendered = sorted((ast.unparse(c).split(":")[0].replace("class ", "").strip(), tuple(x.target.id for x in c.body if isinstance(x, ast.AnnAssign) and isinstance(x.target, ast.Name)))
+                          for c in tree.body if isinstance(c, ast.ClassDef) and any("TypedDict" in ast.unparse(b) for b in c.bases))
+        want_r = sorted((n_.replace(", total=False", ""), tuple(sorted(f_))) for n_, f_ in want)  # the renderer lists fields by name
+        rendered = sorted((n_.split("(")[0] + "(" + n_.split("(", 1)[1].split(",")[0].rstrip(")") + ")", tuple(sorted(f_))) for n_, f_ in rendered)
+        ctx.check(rendered == want_r, "R-C06.4", mr.fq,
+                  "the rendered stub defines exactly the generated TypedDict classes, each with its own fields (none is merged with a same-named class into one that exceeds the limit)",
+                  construct=f"rendered classes {rendered}, expected {want_r}")
 
 
 def run(ctx: Ctx, repo: Repo, tier: str) -> None:
